@@ -288,6 +288,7 @@ def geometry_bounded(seed, n_it):
             systems[cid] = (ct, pT @ Tl, po + pT @ ol)
             parent = cid
         coordref = {}
+        cords0 = {k_: v_.copy() for k_, v_ in cords.items()}            # frame: the definition arrays handed to the library must come back unchanged
         uset = None
         grids = []
         special = [0.0, 90.0, 180.0, 270.0, -90.0, 45.0, 135.0]
@@ -344,6 +345,32 @@ def geometry_bounded(seed, n_it):
                 if not np.allclose(back, p, atol=1e-8):
                     return ev, dict(what="a location queried back in system %d (type %d) is not the same point" % (qc, ct), grid=gid, types=types, coords=np.asarray(c_, float).tolist(),
                                     recovered=back.tolist(), want=p.tolist())
+        # frame: the caller's coordinate-system definition arrays are not modified, and resolving the same arrays again (nothing cached) gives the same systems
+        for cid_ in (10, 20, 30):
+            ev += 1
+            if not np.array_equal(cords[cid_], cords0[cid_]):
+                return ev, dict(what="the 4x3 definition array of coordinate system %d (type %d, defined in a type-%d system) handed to addgrid/mkusetcoordinfo/getcoordinates was modified by the call"
+                                % (cid_, systems[cid_][0], systems[int(cords0[cid_][0, 2])][0]), before=cords0[cid_].tolist(), after=cords[cid_].tolist())
+        cref2 = {}
+        for cid_ in (10, 20, 30):
+            ci2 = n2p.mkusetcoordinfo(cords[cid_], None, cref2)
+            ev += 1
+            if not np.allclose(np.asarray(ci2, float), np.asarray(coordref[cid_], float), atol=1e-10):
+                return ev, dict(what="resolving the definition of system %d a second time (fresh cache) gives a different origin / orientation than the first time" % cid_,
+                                first=np.asarray(coordref[cid_], float).tolist(), second=np.asarray(ci2, float).tolist())
+        # table layouts with scalar points AHEAD of the grids (and of the q-set grid): the rows of every grid are what they are without the scalar points, scalar / q rows are zero
+        rb_a = n2p.rbgeom_uset(uset, np.array([0.3, -0.2, 0.5]))
+        for lay_, tab_ in (("two scalar points first", uset2), ("scalar points first, between and last", pd.concat([uset2.iloc[:8], n2p.make_uset([[942, 0]], n2p.mkusetmask("q")), uset2.iloc[8:]], axis=0))):
+            ev += 1
+            try:
+                rb_b = n2p.rbgeom_uset(tab_, np.array([0.3, -0.2, 0.5]))
+            except Exception as ex:          # noqa: BLE001
+                return ev, dict(what="rbgeom_uset raises %r on a table with %s (q-set grid present)" % (ex, lay_))
+            isg_a = uset.index.get_level_values(1).values > 0
+            isg_b = tab_.index.get_level_values(1).values > 0
+            if rb_b.shape[0] != tab_.shape[0] or not np.allclose(rb_b[isg_b], rb_a[isg_a], atol=1e-10) or abs(rb_b[~isg_b]).max() != 0:
+                return ev, dict(what="rbgeom_uset on a table with %s: grid rows differ from the table without them / scalar rows not zero" % lay_,
+                                max_diff=float(abs(rb_b[isg_b] - rb_a[isg_a]).max()) if rb_b[isg_b].shape == rb_a[isg_a].shape else None)
         # 2. rigid-body modes in each grid's own displacement system
         zc = rng.randn(3); zc[rng.randint(3)] = 0.0                      # a reference point on a coordinate plane / axis (one or two components exactly zero)
         zc2 = np.zeros(3); zc2[rng.randint(3)] = 7.0
